@@ -34,10 +34,10 @@ pub const SUBS: &[SubDef] = &[
 ];
 
 fn run(ctx: &Ctx) {
-    ctx.run_tape("messages", messages, ctx.pick(10_000, 500_000), 500);
-    ctx.run_tape("records", records, ctx.pick(5_000, 250_000), 1200);
-    ctx.run_tape("extensions", extensions, ctx.pick(5_000, 250_000), 400);
-    ctx.run_tape("unsupported", unsupported, ctx.pick(4_000, 200_000), 300);
+    ctx.run_tape("messages", messages, ctx.pick(100_000, 500_000), 500);
+    ctx.run_tape("records", records, ctx.pick(50_000, 250_000), 1200);
+    ctx.run_tape("extensions", extensions, ctx.pick(50_000, 250_000), 400);
+    ctx.run_tape("unsupported", unsupported, ctx.pick(40_000, 200_000), 300);
 }
 
 /// a serializable handshake value
